@@ -157,6 +157,7 @@ func setSecLvlPruningHeight(db dbm.DB, height int64) error {
 
 func pruning(db dbm.DB, curHeight int64, treeCfg *TreeConfig) {
 	defer wg.Done()
+	verifPruneGate(curHeight)
 	pruningTree(db, curHeight, treeCfg)
 }
 
